@@ -425,6 +425,48 @@ func buildFiber(sc *Scenario, p godi.Provider) *app {
 	}}
 }
 
+func buildDecoy(sc *Scenario, p godi.Provider) {
+	decoy := func(rq func() int) error {
+		emit(M{"ev": "mw", "rq": rq(), "i": 99, "scope": "decoy", "probe": 0})
+		return nil
+	}
+	switch sc.Fw {
+	case "http":
+		f := func(s godi.Scope, r *http.Request) error { return decoy(func() int { return rqOf(r.Header) }) }
+		_ = godihttp.ScopeMiddleware(p, godihttp.WithMiddleware(f), godihttp.WithMiddleware(f),
+			godihttp.WithErrorHandler(func(w http.ResponseWriter, r *http.Request, err error) {
+				emit(M{"ev": "errh", "rq": rqOf(r.Header), "kind": "decoy"})
+			}))
+	case "chi":
+		f := func(s godi.Scope, r *http.Request) error { return decoy(func() int { return rqOf(r.Header) }) }
+		_ = godichi.ScopeMiddleware(p, godichi.WithMiddleware(f), godichi.WithMiddleware(f),
+			godichi.WithErrorHandler(func(w http.ResponseWriter, r *http.Request, err error) {
+				emit(M{"ev": "errh", "rq": rqOf(r.Header), "kind": "decoy"})
+			}))
+	case "gin":
+		f := func(s godi.Scope, c *ginpkg.Context) error { return decoy(func() int { return rqOf(c.Request.Header) }) }
+		_ = godigin.ScopeMiddleware(p, godigin.WithMiddleware(f), godigin.WithMiddleware(f),
+			godigin.WithErrorHandler(func(c *ginpkg.Context, err error) {
+				emit(M{"ev": "errh", "rq": rqOf(c.Request.Header), "kind": "decoy"})
+			}))
+	case "echo":
+		f := func(s godi.Scope, c echopkg.Context) error { return decoy(func() int { return rqOf(c.Request().Header) }) }
+		_ = godiecho.ScopeMiddleware(p, godiecho.WithMiddleware(f), godiecho.WithMiddleware(f),
+			godiecho.WithErrorHandler(func(c echopkg.Context, err error) error {
+				emit(M{"ev": "errh", "rq": rqOf(c.Request().Header), "kind": "decoy"})
+				return nil
+			}))
+	case "fiber":
+		frq := func(c *fiberpkg.Ctx) int { n, _ := strconv.Atoi(c.Get("X-Rq")); return n }
+		f := func(s godi.Scope, c *fiberpkg.Ctx) error { return decoy(func() int { return frq(c) }) }
+		_ = godifiber.ScopeMiddleware(p, godifiber.WithMiddleware(f), godifiber.WithMiddleware(f),
+			godifiber.WithErrorHandler(func(c *fiberpkg.Ctx, err error) error {
+				emit(M{"ev": "errh", "rq": frq(c), "kind": "decoy"})
+				return nil
+			}))
+	}
+}
+
 var rqCounter int
 
 func runScenario(sc *Scenario, raw []byte, run int) {
@@ -458,6 +500,10 @@ func runScenario(sc *Scenario, raw []byte, run int) {
 		fmt.Fprintln(os.Stderr, "unknown framework", sc.Fw)
 		os.Exit(4)
 	}
+	// A second, differently configured instance of the same integration is built AFTER the one under test (and
+	// before any request): its configuration must not leak into the first.  Its middlewares identify themselves
+	// as position 99, which no configuration of the instance under test has.
+	buildDecoy(sc, p)
 	var wg sync.WaitGroup
 	start := make(chan struct{})
 	for i := 0; i < sc.Batch; i++ {
